@@ -355,7 +355,7 @@ MUTATIONS = ["fuel_out_of_range", "origin_out_of_range", "cycle_out_of_range", "
 class P(Prop):
     ID = "C13"
     THEOREMS = ["C13_component_roundtrip", "C13_switchboard_roundtrip", "C13_electric_roundtrip", "C13_line_roundtrip",
-                "C13_system_roundtrip", "C13_stable", "C13_short_uid_replaced", "C13_breakers_are_the_chain"]
+                "C13_system_roundtrip", "C13_stable", "C13_hybrid_roundtrip", "C13_short_uid_replaced", "C13_breakers_are_the_chain"]
     MAKE_TARGETS = ["theories/Props/C13.vo", "theories/Check/Check_C13.vo"]
     CHECK_REQUIRE = ("From Coq Require Import QArith String List Bool.\nFrom Feems Require Import Model.ProtoSys Check.Check_C13.\n"
                      "Open Scope Q_scope.\nOpen Scope string_scope.")
